@@ -25,7 +25,7 @@ var KindName = map[formula.SyntaxKind]string{
 	formula.SK_PlusEquals: "+=", formula.SK_MinusEquals: "-=", formula.SK_AsteriskEquals: "*=", formula.SK_SlashEquals: "/=",
 	formula.SK_PercentEquals: "%=", formula.SK_LessThanLessThanEquals: "<<=", formula.SK_GreaterThanGreaterThanEquals: ">>=",
 	formula.SK_GreaterThanGreaterThanGreaterThanEquals: ">>>=", formula.SK_AmpersandEquals: "&=", formula.SK_BarEquals: "|=", formula.SK_CaretEquals: "^=",
-	formula.SK_Identifier: "Id",
+	formula.SK_Identifier:  "Id",
 	formula.SK_TrueKeyword: "true", formula.SK_FalseKeyword: "false", formula.SK_NullKeyword: "null",
 	formula.SK_ThisKeyword: "this", formula.SK_CtxKeyword: "ctx", formula.SK_TypeofKeyword: "typeof",
 }
@@ -79,7 +79,7 @@ func Tree(e formula.Expression) any {
 		case formula.SK_NumberLiteral:
 			return T{"Lit", "Num", LiteralNumber(n)}
 		case formula.SK_StringLiteral:
-			return T{"Lit", "Str", Esc(n.Value)}
+			return T{"Lit", "Str", bytesSeq([]byte(n.Value))}
 		default:
 			return T{"Lit", SpecKind(n.Token), kindName(n.Token)}
 		}
